@@ -445,6 +445,140 @@ func streamDefaults(c *check) {
 	}
 }
 
+// serialLimiter hands out listeners that carry a serial number, so that the log tells which token
+// a completion went to.
+type serialLimiter struct {
+	n   int
+	log *evlog
+}
+
+func (r *serialLimiter) Acquire(ctx context.Context) (core.Listener, bool) {
+	r.n++
+	r.log.add("Acquire#%d", r.n)
+	return &recListener{fmt.Sprintf("token#%d", r.n), r.log}, true
+}
+
+// unaryOverlap: a second unary call goes through the same interceptor value while the first one's
+// handler is still running (nested here; concurrent calls interleave the same way). Each call
+// completes its own token, once, with its own outcome, and returns its own result.
+func unaryOverlap(c *check, server bool) {
+	errA := errors.New("call A failed")
+	for ea := 0; ea < 2; ea++ {
+		for eb := 0; eb < 2; eb++ {
+			log := &evlog{}
+			lim := &serialLimiter{log: log}
+			choices := []int{ea, eb}
+			var resA, resB error
+			var wantA, wantB error
+			if ea == 1 {
+				wantA = errA
+			}
+			if eb == 1 {
+				wantB = errCall
+			}
+			kind := func(e error) string {
+				if e != nil {
+					return "OnDropped"
+				}
+				return "OnSuccess"
+			}
+			if server {
+				ic := gl.UnaryServerInterceptor(gl.WithLimiter(lim))
+				_, resA = ic(context.Background(), "A", &golangGrpc.UnaryServerInfo{FullMethod: "/svc/A"}, func(ctx context.Context, req interface{}) (interface{}, error) {
+					log.add("handler A starts")
+					_, resB = ic(context.Background(), "B", &golangGrpc.UnaryServerInfo{FullMethod: "/svc/B"}, func(ctx context.Context, req interface{}) (interface{}, error) {
+						log.add("handler B")
+						return nil, wantB
+					})
+					return nil, wantA
+				})
+			} else {
+				ic := gl.UnaryClientInterceptor(gl.WithLimiter(lim))
+				resA = ic(context.Background(), "/svc/A", "A", "reply", nil, func(ctx context.Context, method string, req, reply interface{}, cc *golangGrpc.ClientConn, o ...golangGrpc.CallOption) error {
+					log.add("handler A starts")
+					resB = ic(context.Background(), "/svc/B", "B", "reply", nil, func(ctx context.Context, method string, req, reply interface{}, cc *golangGrpc.ClientConn, o ...golangGrpc.CallOption) error {
+						log.add("handler B")
+						return wantB
+					})
+					return wantA
+				})
+			}
+			c.n++
+			c.states[fmt.Sprint(server, choices, log.ev)] = true
+			want := []string{"Acquire#1", "handler A starts", "Acquire#2", "handler B", "token#2." + kind(wantB), "token#1." + kind(wantA)}
+			side := map[bool]string{true: "server", false: "client"}[server]
+			if strings.Join(log.ev, " ") != strings.Join(want, " ") {
+				c.fail("unary-"+side+"-overlap/token-completion", choices, "two overlapping unary %s calls (A err=%v, B err=%v): events %v, expected %v", side, ea == 1, eb == 1, log.ev, want)
+			}
+			if resA != wantA || resB != wantB {
+				c.fail("unary-"+side+"-overlap/result-altered", choices, "two overlapping unary %s calls: A returned %v (handler %v), B returned %v (handler %v)", side, resA, wantA, resB, wantB)
+			}
+		}
+	}
+}
+
+// streamOverlap: two streams served by the same interceptor value at the same time (the second is
+// accepted while the first one's handler is running). Every operation must go through its own
+// stream, with its own result, whatever the order in which the two handlers use their streams.
+func streamOverlap(c *check) {
+	errA, errB := errors.New("stream A failed"), errors.New("stream B failed")
+	for kindA := 0; kindA < 2; kindA++ {
+		for kindB := 0; kindB < 2; kindB++ {
+			for ea := 0; ea < 2; ea++ {
+				for eb := 0; eb < 2; eb++ {
+					for order := 0; order < 2; order++ { // 0: B operates first, 1: A operates first
+						log := &evlog{}
+						recv := &recLimiter{name: "recv", grant: true, log: log}
+						send := &recLimiter{name: "send", grant: true, log: log}
+						ic := gl.StreamServerInterceptor(gl.WithStreamRecvLimiter(recv), gl.WithStreamSendLimiter(send))
+						logA, logB := &evlog{}, &evlog{}
+						innerA, innerB := &ss{log: logA}, &ss{log: logB}
+						if ea == 1 {
+							innerA.next = errA
+						}
+						if eb == 1 {
+							innerB.next = errB
+						}
+						choices := []int{kindA, kindB, ea, eb, order}
+						do := func(st golangGrpc.ServerStream, kind int) error {
+							if kind == 1 {
+								return st.SendMsg("m")
+							}
+							return st.RecvMsg("m")
+						}
+						var gotA, gotB error
+						ic(nil, innerA, &golangGrpc.StreamServerInfo{FullMethod: "/svc/A"}, func(srv interface{}, stA golangGrpc.ServerStream) error {
+							if order == 1 {
+								gotA = do(stA, kindA)
+							}
+							ic(nil, innerB, &golangGrpc.StreamServerInfo{FullMethod: "/svc/B"}, func(srv interface{}, stB golangGrpc.ServerStream) error {
+								if order == 1 {
+									gotB = do(stB, kindB)
+									return nil
+								}
+								gotB = do(stB, kindB)
+								gotA = do(stA, kindA) // A's handler uses its stream while B's is still open
+								return nil
+							})
+							return nil
+						})
+						c.n++
+						c.states[fmt.Sprint(choices, logA.ev, logB.ev, log.ev)] = true
+						what := fmt.Sprintf("two overlapping streams on one interceptor (A: %s err=%v, B: %s err=%v, %s operates first)",
+							[]string{"RecvMsg", "SendMsg"}[kindA], ea == 1, []string{"RecvMsg", "SendMsg"}[kindB], eb == 1, []string{"B", "A"}[order])
+						if len(logA.ev) != 1 || len(logB.ev) != 1 {
+							c.fail("stream-overlap/wrong-stream", choices, "%s: stream A was called %d times and stream B %d times, expected once each", what, len(logA.ev), len(logB.ev))
+						}
+						if gotA != innerA.next || gotB != innerB.next {
+							c.fail("stream-overlap/result-altered", choices, "%s: A returned %v (its stream returned %v), B returned %v (its stream returned %v)", what, gotA, innerA.next, gotB, innerB.next)
+						}
+					}
+				}
+			}
+		}
+	}
+}
+
 func main() {
 	prop := flag.String("prop", "C14", "")
 	tier := flag.String("tier", "quick", "")
@@ -497,6 +631,8 @@ func main() {
 		run("C14/unary-server", "limiter answer x call result x classifier result x options", func(c *check) { unary(c, true) })
 		run("C14/unary-client", "limiter answer x call result x classifier result x options", func(c *check) { unary(c, false) })
 		run("C14/stream", fmt.Sprintf("all sequences of <=%d RecvMsg/SendMsg x grant x error x classifier x options; distinct recv/send limiters", maxLen), func(c *check) { streams(c, maxLen) })
+		run("C14/unary-overlap", "a second call through the same interceptor value while the first handler runs x results; server and client", func(c *check) { unaryOverlap(c, true); unaryOverlap(c, false) })
+		run("C14/stream-overlap", "two streams on one interceptor value x RecvMsg/SendMsg x stream errors x order of use", streamOverlap)
 		run("C14/stream-defaults", "no options / only one limiter supplied x RecvMsg/SendMsg x stream error", streamDefaults)
 	}
 	o.WallS = time.Since(start).Seconds()
